@@ -197,6 +197,17 @@ Theorem C07_accumulator_groups : forall (E : Type) eval d h,
 Proof. exact accum_groups_proof. Qed.
 Print Assumptions C07_accumulator_groups.
 
+(* the set of groups is independent of the sample order; a group expression is evaluated with {.} and
+   every named key (data-column names included) reading "" *)
+Theorem C07_accumulator_groups_perm : forall (E : Type) eval d h1 h2, Permutation h1 h2 ->
+  map fst (a_run E eval d h1) = map fst (a_run E eval d h2).
+Proof. exact accum_groups_perm_proof. Qed.
+Print Assumptions C07_accumulator_groups_perm.
+Theorem C07_accumulator_group_key : forall (E : Type) eval d m,
+  a_group_key E eval d m = join0 (map (fun g => eval g m [] (fun _ => [])) (a_groups d)).
+Proof. exact accum_group_key_proof. Qed.
+Print Assumptions C07_accumulator_group_key.
+
 (* ------------------------------------------------------------------ numerical aggregator (over Q) *)
 Open Scope Q_scope.
 (* count, parse errors, mean = sum/n, m2 = sum of squared deviations from the mean *)
